@@ -186,7 +186,11 @@ def playback_test(crate, harness, harness_timeout=600, repo=None, srcfile=None):
     out = p.stdout + '\n' + p.stderr
     m = re.search(r'```\n(.*?)```', out, re.S)
     detail = re.findall(r'(?m)^Check \d+: .*\n\s*- Status: FAILURE\n\s*- Description: .*\n\s*- Location: .*$', out)
-    return (m.group(1) if m else None), '\n'.join(detail)[-4000:]
+    test = m.group(1) if m else None
+    if test and '#[test]' in test:
+        # drop Kani's doc comment: a multi-line assertion message is only commented on its first line
+        test = test[test.index('#[test]'):]
+    return test, '\n'.join(detail)[-4000:]
 
 
 def native_replay(crate, test_text, repo=None, timeout=1200, srcfile=None):
